@@ -374,6 +374,7 @@ def run(ctx):
     resave_stream(ctx, g, rng, IRm, all_reqs, all_checks)
     through_constructor(ctx, g, rng, IRm)
     identical_tables(ctx, g, rng, IRm)
+    unknown_name_not_reached(ctx, g, IRm)
     replies = model_batch(all_reqs)
     for (tb, mo, ch), rep in zip(all_checks, replies):
         for (idx, kind, want) in ch:
@@ -537,6 +538,39 @@ def impl_bytes(g, v, tn):
         return buf.getvalue()
     except Exception:  # noqa: BLE001
         return None
+
+
+def unknown_name_not_reached(ctx, g, IRm):
+    """Known finding (recorded, not repaired; Props/C14.v C14_unknown_not_reached_refuted): a type INVOLVING a name without codec keeps
+    its bytes after a read only if decoding reaches that name.  With an empty sequence<foo> / a known variant alternative the read
+    gives an ordinary value and the save re-encodes the known parts (a set listing an element twice, a bool byte 0x02).
+    Reproduced on every run; a control table whose unknown part IS reached must keep its bytes."""
+    one, two, zero = (1).to_bytes(8, "little"), (2).to_bytes(8, "little"), (0).to_bytes(8, "little")
+    tables = [("tuple<set<uint8_t>,sequence<foo>>", two + b"\x05\x05" + zero, False),
+              ("tuple<bool,mapping<string,foo>>", b"\x02" + zero, False),
+              ("tuple<set<uint8_t>,variant<foo,uint8_t>>", two + b"\x05\x05" + one + b"\x09", False),
+              ("tuple<set<uint8_t>,sequence<foo>>", two + b"\x05\x05" + one + b"\xab", True)]
+    for tn, raw, reached in tables:
+        ir = g.IR()
+        ir.aux_data["t"] = g.AuxData(g.serialization.UnknownData(raw), tn)
+        buf = io.BytesIO()
+        ir.save_protobuf_file(buf)
+        ir2 = g.IR.load_protobuf_file(io.BytesIO(buf.getvalue()))
+        ctx.case("unknown-not-reached:%s:%s" % (tn, reached), True)
+        try:
+            ir2.aux_data["t"].data
+            out = io.BytesIO()
+            ir2.save_protobuf_file(out)
+            p = IRm()
+            p.ParseFromString(out.getvalue()[8:])
+            got = bytes(p.aux_data["t"].data)
+        except Exception as e:  # noqa: BLE001
+            ctx.add("oracle", "unknown-bytes-changed", "a table of type %s (involving a name without codec) read and saved: %s" % (tn, exc_name(g, e)), {"type_name": tn})
+            continue
+        if got != raw:
+            ctx.add("oracle", "unknown-name-not-reached" if not reached else "unknown-bytes-changed",
+                    "a table of type %s involves a name without codec%s; read and saved it is written as %s, it was loaded as %s"
+                    % (tn, " which decoding does not reach" if not reached else "", got.hex(), raw.hex()), {"type_name": tn, "loaded": raw.hex(), "written": got.hex()})
 
 
 def resave_stream(ctx, g, rng, IRm, all_reqs, all_checks):
